@@ -43,15 +43,15 @@ def barrier_reply (xid):
 def error_msg (xid, etype, code, data=b""):
   return W.msg(W.ERROR, xid, struct.pack("!HH", etype, code) + data)
 
-def port_status (reason, port_no, serial, dpid):
+def port_status (reason, port_no, serial, dpid, xid=0):
   # ofp_port_status: reason(1) pad(7) desc(48).  The serial number is carried in the hardware
   # address so that every message of a script is distinguishable.
   hw = struct.pack("!HBBH", 0x0200, dpid & 0xff, 0xee, serial)
-  return W.msg(W.PORT_STATUS, 0, struct.pack("!B7x", reason) + W.phy_port(port_no, hw, b"p%d" % port_no))
+  return W.msg(W.PORT_STATUS, xid, struct.pack("!B7x", reason) + W.phy_port(port_no, hw, b"p%d" % port_no))
 
-def packet_in (serial, in_port=1):
+def packet_in (serial, in_port=1, xid=0):
   frame = bytes.fromhex("020000000001") + bytes.fromhex("020000000002") + b"\x88\xb5" + bytes([serial]) * 46
-  return W.msg(W.PACKET_IN, 0, struct.pack("!LHHBx", W.NO_BUFFER, len(frame), in_port, W.OFPR_NO_MATCH) + frame)
+  return W.msg(W.PACKET_IN, xid, struct.pack("!LHHBx", W.NO_BUFFER, len(frame), in_port, W.OFPR_NO_MATCH) + frame)
 
 
 PS_REASON = {"ps-add": W.OFPPR_ADD, "ps-mod": W.OFPPR_MODIFY, "ps-del": W.OFPPR_DELETE}
@@ -74,6 +74,18 @@ class Peer (object):
     self.barrier_raw = None
     self.hello_seen = False
     self.ports = (1, 2)         # port numbers listed in the features reply (48 bytes each)
+    self.xid_mode = "default"   # xid of the messages the switch ORIGINATES (hello, port status, echo request, packet in)
+
+  def own_xid (self, default):
+    """The switch chooses the xids of its own messages freely: the script's default, 0, 0xffffffff, or the
+    xid of the controller request it has received last and not answered yet ('pending')."""
+    m = self.xid_mode
+    if m == "zero": return 0
+    if m == "max": return 0xffffffff
+    if m == "pending":
+      for x in (self.barrier_xid, self.desc_xid, self.features_xid):
+        if x is not None: return x
+    return default
 
   def absorb (self, data):
     """Bytes the controller wrote.  Returns the list of message type names."""
@@ -105,7 +117,7 @@ class Peer (object):
     return x
 
   def build (self, kind, serial=0):
-    if kind == "hello": return W.hello(0x0c09aaaa)
+    if kind == "hello": return W.hello(self.own_xid(0x0c09aaaa))
     if kind == "features": return features_reply(self.features_xid, self.dpid, self.ports)
     if kind == "desc": return desc_stats_reply(self.desc_xid)
     if kind == "barrier": return barrier_reply(self.barrier_xid)
@@ -114,10 +126,10 @@ class Peer (object):
       return error_msg(self.barrier_xid, W.OFPET_BAD_REQUEST, W.OFPBRC_BAD_TYPE, self.barrier_raw or b"")
     if kind in PS_REASON:
       r, port, s = ps_ident(kind, serial)
-      return port_status(r, port, s, self.dpid)
-    if kind == "echo": return W.echo_request(0x0c09e000 + serial, b"ping%d" % serial)
-    if kind == "echo-pad": return W.echo_request(0x0c09f000 + serial, b"\0" * serial)    # serial = body length
-    if kind == "pktin": return packet_in(serial)
+      return port_status(r, port, s, self.dpid, self.own_xid(0))
+    if kind == "echo": return W.echo_request(self.own_xid(0x0c09e000 + serial), b"ping%d" % serial)
+    if kind == "echo-pad": return W.echo_request(self.own_xid(0x0c09f000 + serial), b"\0" * serial)    # serial = body length
+    if kind == "pktin": return packet_in(serial, xid=self.own_xid(0))
     if kind == "err-xid":
       # right type/code, but about some other request
       return error_msg(self.other_xid(), W.OFPET_BAD_REQUEST, W.OFPBRC_BAD_TYPE, b"\x01\x12\x00\x08\x00\x00\x00\x00")
